@@ -62,6 +62,10 @@ pub struct Package {
     /// can be selected" is then not a candidate, so no listed candidate may be installed.
     #[serde(default)]
     pub lock_gone: bool,
+    /// a `Hint::Some` list additionally names every unlisted solvable of the package (a provider
+    /// may know the dependencies of a solvable it does not offer as a candidate)
+    #[serde(default)]
+    pub hint_unlisted: bool,
     pub hint: Hint,
     /// solvables that belong to this package name but are not listed by get_candidates
     /// (only reachable as soft requirements; mirrors tests/solver.rs::test_solve_with_additional)
@@ -115,6 +119,22 @@ impl Package {
     /// Is the listed candidate `idx` ruled out by the package's lock?
     pub fn locked_out(&self, idx: usize) -> bool {
         self.lock_gone || self.locked.is_some_and(|l| l != idx)
+    }
+
+    /// Does the package's answer to `get_candidates` declare the dependencies of this solvable
+    /// available? (`All` speaks about the listed candidates only.)
+    pub fn hints(&self, listed: bool, idx: usize) -> bool {
+        match &self.hint {
+            Hint::None => false,
+            Hint::All => listed,
+            Hint::Some(v) => {
+                if listed {
+                    v.contains(&idx)
+                } else {
+                    self.hint_unlisted
+                }
+            }
+        }
     }
 
     pub fn has_lock(&self) -> bool {
